@@ -2,10 +2,10 @@
 EXTENDS Propagation, Json
 RECURSIVE SeqOf(_)
 SeqOf(S) == IF S = {} THEN <<>> ELSE LET x == CHOOSE y \in S : TRUE IN <<x>> \o SeqOf(S \ {x})
-CJ(x) == [src |-> x.src, dst |-> x.dst, confed |-> x.confed, asp |-> x.asp, has |-> SeqOf(x.has), llgr |-> x.llgr, same |-> x.same]
+CJ(x) == [src |-> x.src, dst |-> x.dst, confed |-> x.confed, asp |-> x.asp, has |-> SeqOf(x.has), llgr |-> x.llgr, same |-> x.same, pol |-> x.pol]
 EJ(e) == IF ~e.sent THEN [sent |-> FALSE]
          ELSE [sent |-> TRUE, asp |-> e.asp, first |-> e.first, absent |-> SeqOf(e.absent), present |-> SeqOf(e.present),
-               nexthop |-> e.nexthop, oid |-> e.oid, cl |-> e.cl]
+               nexthop |-> e.nexthop, oid |-> e.oid, cl |-> e.cl, medval |-> e.medval, comm |-> e.comm]
 EmitInbound == PrintT(ToJson([inbound |-> SeqOf({[case |-> x, installed |-> Installed(x)] : x \in {y \in InCases : InMeaningful(y)}})]))
 Emit == PrintT(ToJson([case |-> CJ(c), exp |-> EJ(Expected(c)), common |-> ExpectedCommon(c)]))
 =============================================================================
